@@ -147,6 +147,8 @@ func init() {
 			o.Forced(dm, "snap-forced|"+sp.pkg, "a maintenance run with a configured snapshot file must write the snapshot (only a GC error or a failing open may prevent it)", IsInstr(sn), gcOK, hasPath, opOK)
 			closes := e.Calls(dm, "(*"+sp.pkg+".replaceFile).Close")
 			o.Check(len(closes) >= 1, "close|"+sp.pkg, "the replace file is never closed (published)", nil)
+			// the publish: the Close that every successful snapshot run passes (the same Close may also be what
+			// discards the file after a failed write)
 			var pub ssa.CallInstruction
 			for _, c := range closes {
 				o.Check(e.Arg(c, 0) == e.X(dm, op.(*ssa.Call))+"#0", "close-arg|"+sp.pkg, "the file that is closed must be the one opened", c)
@@ -154,10 +156,17 @@ func init() {
 					pub = c
 				}
 			}
+			if pub == nil {
+				for _, c := range closes {
+					if len((&Walk{Fn: dm, Cut: e.CutContradicting(gcOK, hasPath, opOK, snOK), Barrier: IsInstr(c)}).FromEntry().Returns()) == 0 {
+						pub = c
+					}
+				}
+			}
 			if o.Check(pub != nil, "publish|"+sp.pkg, "no publish (Close after a successful Snapshot) found", nil) {
 				o.Forced(dm, "publish-forced|"+sp.pkg, "a successfully written snapshot must be published", IsInstr(pub), gcOK, hasPath, opOK, snOK)
 				// its error is what the run returns
-				r := (&Walk{Fn: dm}).After(pub)
+				r := (&Walk{Fn: dm, Cut: e.CutContradicting(snOK)}).After(pub)
 				for _, ret := range r.Returns() {
 					for _, v := range e.RetVals(r, ret, 1) {
 						o.Check(e.X(dm, v) == e.X(dm, pub.(*ssa.Call)), "publish-error|"+sp.pkg, "a failed publish must be reported by the maintenance run", ret)
@@ -541,7 +550,9 @@ func recordFramingRule(o *Ob) {
 				n++
 				o.Site(mu, sp.pkg+": loaded["+clip(e.X(dec, mu.Key))+"] = record")
 				o.Check(mu.Value == ssa.Value(obj), "dec-value|"+sp.pkg, "what is filed in the loaded state is not the decoded record: "+clip(e.X(dec, mu.Value)), mu)
-				o.Check(regexpMatch(sp.key, e.X(dec, mu.Key)), "dec-key|"+sp.pkg, "a loaded record is filed under "+clip(e.X(dec, mu.Key))+", not under its own key", mu)
+				for _, kv := range e.ValStrs(dec, e.ValsAt((&Walk{Fn: dec}).FromEntry(), mu, mu.Key)) {
+					o.Check(regexpMatch(sp.key, kv), "dec-key|"+sp.pkg, "a loaded record is filed under "+clip(kv)+", not under its own key", mu)
+				}
 				o.Check(l.Blocks[mu.Block().Index], "dec-loop|"+sp.pkg, "records are filed outside the reading loop", mu)
 			}
 			o.Check(n == 1, "dec-file|"+sp.pkg, "each decoded record must be filed in the loaded state, once", um)
